@@ -46,17 +46,11 @@ func c20Int(tag string) int64 {
 func VerifC20() {
 	vNow(1700000000, 0)
 	n := 1 + vChoose("links", vParam("N"))
-	needList := false
 	invIss, sub, links := verifConformingLinks(n)
 	// policies held in slices with spare capacity, as a caller-built policy may be
 	for i := range links {
-		if k := vChoose("pol"+string(rune('0'+i)), 3); k > 0 {
+		if k := vChoose("pol"+string(rune('0'+i)), 2); k > 0 {
 			ctor := policy.GreaterThanOrEqual(".a?", basicnode.NewInt(c20Int("c"+string(rune('0'+i)))))
-			if k == 2 { // a selector with open / negative slice bounds over a list argument
-				sel := []string{".l[1:]", ".l[-2:]", ".l[:-1]"}[vChoose("slice"+string(rune('0'+i)), 3)]
-				ctor = policy.All(sel+"?", policy.GreaterThanOrEqual(".", basicnode.NewInt(c20Int("c"+string(rune('0'+i))))))
-				needList = true
-			}
 			p, err := policy.Construct(ctor)
 			if err != nil {
 				vSkip("unreachable: constructor failed")
@@ -68,20 +62,6 @@ func VerifC20() {
 	a := args.New()
 	for _, k := range c20Order("arg_order", vParam("K")) {
 		if err := a.Add(k, c20Int("arg_"+k)); err != nil {
-			vSkip("unreachable: Add failed")
-		}
-	}
-	if needList {
-		ln := vChoose("list_len", 4)
-		nd, err := qp.BuildList(basicnode.Prototype.Any, int64(ln), func(la datamodel.ListAssembler) {
-			for i := 0; i < ln; i++ {
-				qp.ListEntry(la, qp.Int(c20Int("l"+string(rune('0'+i)))))
-			}
-		})
-		if err != nil {
-			vSkip("unreachable: list build failed")
-		}
-		if err := a.Add("l", nd); err != nil {
 			vSkip("unreachable: Add failed")
 		}
 	}
@@ -169,4 +149,49 @@ func hasKey(keys []string, k string) bool {
 		}
 	}
 	return false
+}
+
+// VerifC20Slices: a delegation whose policy uses a selector with open or
+// negative slice bounds is not modified by evaluating it - against lists of
+// different lengths, twice, through ExecutionAllowed and Policy().Match.
+func VerifC20Slices() {
+	vNow(1700000000, 0)
+	invIss, sub, links := verifConformingLinks(1)
+	sel := []string{".l[1:]", ".l[-2:]", ".l[:-1]", ".l[0:2]"}[vChoose("slice", 4)]
+	p, err := policy.Construct(policy.All(sel, policy.GreaterThanOrEqual(".", basicnode.NewInt(c20Int("c")))))
+	if err != nil {
+		vSkip("unreachable: constructor failed")
+	}
+	links[0].pol = p
+	mk := func(tag string) *args.Args {
+		ln := vChoose(tag+"_len", 4)
+		nd, err := qp.BuildList(basicnode.Prototype.Any, int64(ln), func(la datamodel.ListAssembler) {
+			for i := 0; i < ln; i++ {
+				qp.ListEntry(la, qp.Int(c20Int(tag+string(rune('0'+i)))))
+			}
+		})
+		if err != nil {
+			vSkip("unreachable: list build failed")
+		}
+		a := args.New()
+		if err := a.Add("l", nd); err != nil {
+			vSkip("unreachable: Add failed")
+		}
+		return a
+	}
+	a1, a2 := mk("first"), mk("second")
+	ch := &verifChain{links: links, cids: verifCids(1)}
+	ld := ch.loader()
+	inv1 := verifInvocation(invIss, sub, did.Undef, command.Top(), a1, ch.cids, nil)
+	inv2 := verifInvocation(invIss, sub, did.Undef, command.Top(), a2, ch.cids, nil)
+	vFreeze(inv1, inv2, ld.dlgs[0])
+	alone := inv2.ExecutionAllowed(ld) == nil // what the second invocation gets when checked first
+	_ = inv1.ExecutionAllowed(ld)
+	after := inv2.ExecutionAllowed(ld) == nil
+	n2, _ := a2.Clone().ToIPLD()
+	m1, _ := ld.dlgs[0].Policy().Match(n2)
+	vReach("evaluated")
+	vAssert(vFrozenWrites() == 0, "evaluating a policy wrote to memory reachable from the shared delegation")
+	vAssert(alone == after, "the verdict for an invocation depends on which invocation was checked before it against the same delegation")
+	vAssert(m1 == after, "Policy().Match on the shared delegation disagrees with ExecutionAllowed after earlier evaluations")
 }
